@@ -581,3 +581,48 @@ func NoGC() func() {
 		debug.SetGCPercent(old)
 	}
 }
+
+// UDPSocketInode returns the inode of a UDP socket of this network namespace bound to the local port
+// ("" if none). A port number can be reused by another socket, also of another process; the inode cannot.
+func UDPSocketInode(port int) string {
+	for _, f := range []string{"/proc/self/net/udp", "/proc/self/net/udp6"} {
+		b, err := os.ReadFile(f)
+		if err != nil {
+			continue
+		}
+		for i, line := range strings.Split(string(b), "\n") {
+			fs := strings.Fields(line)
+			if i == 0 || len(fs) < 10 {
+				continue
+			}
+			if j := strings.LastIndexByte(fs[1], ':'); j >= 0 {
+				var p int
+				fmt.Sscanf(fs[1][j+1:], "%X", &p)
+				if p == port {
+					return fs[9]
+				}
+			}
+		}
+	}
+	return ""
+}
+
+// UDPInodeBound reports whether a UDP socket with that inode still exists.
+func UDPInodeBound(inode string) bool {
+	if inode == "" {
+		return false
+	}
+	for _, f := range []string{"/proc/self/net/udp", "/proc/self/net/udp6"} {
+		b, err := os.ReadFile(f)
+		if err != nil {
+			continue
+		}
+		for i, line := range strings.Split(string(b), "\n") {
+			fs := strings.Fields(line)
+			if i > 0 && len(fs) >= 10 && fs[9] == inode {
+				return true
+			}
+		}
+	}
+	return false
+}
